@@ -643,13 +643,15 @@ def gen_file(tape, max_records, max_refs=4, max_lseq=40, max_ops=12, tag="", all
         need = max([r["pos"] + max(ref_length(r["cigar"]), 1) for r in records if r["refid"] == i] +
                    [r["next_pos"] + 1 for r in records if r["next_refid"] == i] + [1])
         refs.append((nm, need + tape.draw(1000, tag + "ref.slack")))
-    text_kind = tape.weighted([(2, "none"), (3, "hd_sq"), (1, "hd_sq_nul"), (1, "comment")], tag + "text")
+    text_kind = tape.weighted([(2, "none"), (3, "hd_sq"), (1, "hd_sq_nul"), (1, "comment"), (1, "comment_utf8")], tag + "text")
     if text_kind == "none":
         text = b""
     else:
         text = b"@HD\tVN:1.6\tSO:unsorted\n" + b"".join(b"@SQ\tSN:%s\tLN:%d\n" % (nm.encode(), ln) for nm, ln in refs)
         if text_kind == "comment":
             text += b"@CO\tbnpsim model file\n"
+        if text_kind == "comment_utf8":
+            text += "@CO\tna\u00efve caf\u00e9 \u2713\n".encode("utf-8")     # the SAM spec allows UTF-8 in @CO lines
         if text_kind == "hd_sq_nul":
             text += b"\x00"
     return {"text": text, "refs": refs}, records
